@@ -189,6 +189,17 @@ def execute(ctx, case: dict) -> None:
         try:
             if case["via"] == "Address":
                 addr = Address(line, platform=case.get("platform", "ios"), **kwargs)
+            elif case["via"] == "Ace":
+                # the limit configured on the entry: its addresses enforce it
+                from cisco_acl import Ace  # pylint: disable=import-outside-toplevel
+
+                addr = Ace(f"permit ip {line} any", **kwargs).srcaddr
+                ctx.count("limits_configured_on_entries")
+            elif case["via"] == "Acl":
+                from cisco_acl import Acl  # pylint: disable=import-outside-toplevel
+
+                addr = Acl(f"ip access-list extended L\n permit ip any {line}", **kwargs).items[0].dstaddr
+                ctx.count("limits_configured_on_entries")
             else:
                 obj = Wildcard(line, **kwargs)
         except NetmaskValueError as ex:
@@ -225,7 +236,12 @@ def execute(ctx, case: dict) -> None:
                 shape.append("S" if k <= lim else "R")
                 try:
                     if obj is None and addr is None:
-                        if case["via"] == "Address":
+                        if case["via"] == "Address" and case.get("start_group"):
+                            # the address starts its life as a group with members and is then given a wildcard line
+                            addr = Address("object-group G", items=["host 10.251.0.1", "10.252.0.0 0.0.255.255"], max_ncwb=lim)
+                            addr.line = _line(v, w)
+                            ctx.count("group_addresses_reassigned_to_wildcards")
+                        elif case["via"] == "Address":
                             addr = Address(_line(v, w), max_ncwb=lim)
                         else:
                             obj = Wildcard(_line(v, w), max_ncwb=lim)
@@ -454,8 +470,8 @@ def gen_cases(ctx):
             k = min(kmax, int(rng.expovariate(0.35)))
             trailing = rng.randint(0, 31 - k) if rng.random() < 0.7 else 0
             yield {"k": "single", "v": _rand_base(rng), "w": _mask_with(rng, k, trailing),
-                   "max_ncwb": rng.choice([None, None, k, k + 1, 16, 20, 30]),
-                   "via": rng.choice(["Wildcard", "Address"])}
+                   "max_ncwb": rng.choice([None, None, k, k + 1, max(0, k - 1), 0, 16, 20, 30]),
+                   "via": rng.choice(["Wildcard", "Address", "Wildcard", "Address", "Ace", "Acl"])}
         else:
             lim = rng.choice([0, 2, 4, 6, 8, 16])
             steps = []
@@ -476,7 +492,10 @@ def gen_cases(ctx):
                 if rng.random() < 0.15:
                     steps.append(["limit", rng.choice([0, 1, 2, 4, 8, 16])])
             steps.append(["ipnets"])
-            yield {"k": "history", "max_ncwb": lim, "steps": steps, "via": rng.choice(["Wildcard", "Wildcard", "Address"])}
+            hist = {"k": "history", "max_ncwb": lim, "steps": steps, "via": rng.choice(["Wildcard", "Wildcard", "Address"])}
+            if hist["via"] == "Address" and rng.random() < 0.3:
+                hist["start_group"] = True
+            yield hist
 
 
 def run(ctx) -> None:
